@@ -7,42 +7,9 @@ import BtcdebProofs.Lemmas.LE
 namespace Btcdeb.Proofs.C07Lexer
 open Btcdeb Btcdeb.Model
 
-/-! ### the side condition: nested groups are delimited by blanks -/
-
 def isBlank (c : UInt8) : Bool := c.toNat == 32 || c.toNat == 9 || c.toNat == 10 || c.toNat == 13
 def notNl (x : UInt8) : Bool := x.toNat != 10 && x.toNat != 13
 def nextDepth (c : UInt8) (d : Nat) : Nat := if c.toNat == 91 then d + 1 else if c.toNat == 93 then d - 1 else d
-
-/-- where the scanner is: in/between plain words (`curEmpty`: no character of a word collected yet),
-    directly behind the `]` that closed a nested group, inside a nested group, inside a `#` comment -/
-inductive LexSt where
-  | plain (curEmpty : Bool) | after | nest (d : Nat) | comment
-
-/-- `spacedGo st text`: on the way through the text (a bracket body, outer brackets removed)
-    * a `[` at depth 0 only occurs where no word is in progress (start, after a blank, after a comment line),
-    * the character behind the `]` closing a nested group is a blank (space, tab, newline, CR) or the end,
-    * no `]` occurs at depth 0, and every `[` is closed.
-    Brackets inside a comment at depth 0 are skipped, inside a nested group they are counted (as both the
-    implementation and the specification do). -/
-def spacedGo : LexSt → Bytes → Bool
-  | .plain _, [] => true
-  | .after, [] => true
-  | .comment, [] => true
-  | .nest _, [] => false
-  | .plain ce, c :: r =>
-    if c.toNat == 91 then ce && spacedGo (.nest 1) r
-    else if c.toNat == 93 then false
-    else if isBlank c then spacedGo (.plain true) r
-    else if c.toNat == 35 then spacedGo .comment r
-    else spacedGo (.plain false) r
-  | .after, c :: r => isBlank c && spacedGo (.plain true) r
-  | .nest d, c :: r => if nextDepth c d == 0 then spacedGo .after r else spacedGo (.nest (nextDepth c d)) r
-  | .comment, c :: r => if notNl c then spacedGo .comment r else spacedGo (.plain true) r
-
-/-- the lexical side condition on a bracket body -/
-def Spaced (body : Bytes) : Prop := spacedGo (.plain true) body = true
-
-instance (body : Bytes) : Decidable (Spaced body) := by unfold Spaced; infer_instance
 
 /-- number of characters up to and including the `]` that brings depth `d` to 0 -/
 def closeLen : Bytes → Nat → Option Nat
@@ -51,9 +18,10 @@ def closeLen : Bytes → Nat → Option Nat
 
 /-! ### specification side -/
 
+/-- inside a group everything belongs to the word in progress, up to the matching `]` -/
 theorem splitWords_nest (rest : Bytes) : ∀ (k d m : Nat) (cur : Bytes) (acc : List Bytes),
     d > 0 → closeLen rest d = some m → k > m →
-    Spec.splitWords k rest cur d acc = Spec.splitWords (k - m) (rest.drop m) [] 0 ((cur ++ rest.take m) :: acc) := by
+    Spec.splitWords k rest cur d acc = Spec.splitWords (k - m) (rest.drop m) (cur ++ rest.take m) 0 acc := by
   induction rest with
   | nil => intro k d m cur acc _ h; simp [closeLen] at h
   | cons c r ih =>
@@ -65,11 +33,12 @@ theorem splitWords_nest (rest : Bytes) : ∀ (k d m : Nat) (cur : Bytes) (acc : 
     unfold closeLen at hm
     cases h0 : (nextDepth c d == 0)
     case true =>
-      simp only [h0, if_true, Option.some.injEq] at hm ⊢
+      simp only [h0, if_true, Option.some.injEq] at hm
       subst hm
-      simp
+      have hz : nextDepth c d = 0 := by simpa using h0
+      rw [hz]; simp
     case false =>
-      simp only [h0, Bool.false_eq_true, if_false] at hm ⊢
+      simp only [h0, Bool.false_eq_true, if_false] at hm
       cases hcl : closeLen r (nextDepth c d) with
       | none => rw [hcl] at hm; simp at hm
       | some m' =>
@@ -82,22 +51,46 @@ theorem splitWords_nest (rest : Bytes) : ∀ (k d m : Nat) (cur : Bytes) (acc : 
         rw [this]
         simp
 
-theorem spaced_nest (rest : Bytes) : ∀ (d : Nat), spacedGo (.nest d) rest = true →
-    ∃ m, closeLen rest d = some m ∧ spacedGo .after (rest.drop m) = true := by
+/-- an unclosed group is outside the grammar -/
+theorem splitWords_unclosed (rest : Bytes) : ∀ (k d : Nat) (cur : Bytes) (acc : List Bytes),
+    d > 0 → closeLen rest d = none → Spec.splitWords k rest cur d acc = none := by
   induction rest with
-  | nil => intro d h; simp [spacedGo] at h
+  | nil =>
+    intro k d cur acc hd _
+    cases k with
+    | zero => rfl
+    | succ k =>
+      rw [Spec.splitWords]
+      have : (d != 0) = true := by simp; omega
+      simp [this]
   | cons c r ih =>
-    intro d h
-    unfold spacedGo at h
-    unfold closeLen
-    cases h0 : (nextDepth c d == 0)
-    case true =>
-      simp only [h0, if_true] at h ⊢
-      exact ⟨1, rfl, by simpa using h⟩
-    case false =>
-      simp only [h0, Bool.false_eq_true, if_false] at h ⊢
-      obtain ⟨m, hm, hs⟩ := ih _ h
-      exact ⟨m + 1, by simp [hm], by simpa using hs⟩
+    intro k d cur acc hd hm
+    cases k with
+    | zero => rfl
+    | succ k =>
+      rw [Spec.splitWords]
+      have hfold : (if (c.toNat == 91) = true then d + 1 else if (c.toNat == 93) = true then d - 1 else d) = nextDepth c d := rfl
+      simp only [hd, if_true, hfold]
+      unfold closeLen at hm
+      cases h0 : (nextDepth c d == 0)
+      case true => simp [h0] at hm
+      case false =>
+        simp only [h0, Bool.false_eq_true, if_false, Option.map_eq_none_iff] at hm
+        have hd' : nextDepth c d > 0 := by
+          have : nextDepth c d ≠ 0 := by simpa using h0
+          omega
+        exact ih k _ _ _ hd' hm
+
+theorem dropWhile_head {α} (p : α → Bool) : ∀ (l : List α) (c : α) (r : List α), l.dropWhile p = c :: r → p c = false := by
+  intro l
+  induction l with
+  | nil => intro c r h; cases h
+  | cons a l ih =>
+    intro c r h
+    rw [List.dropWhile_cons] at h
+    split at h
+    · exact ih c r h
+    · rename_i hp; injection h with h1 h2; subst h1; simpa using hp
 
 theorem dropWhile_eq_drop {α} (p : α → Bool) (l : List α) : l.dropWhile p = l.drop (l.takeWhile p).length := by
   induction l with
@@ -106,24 +99,6 @@ theorem dropWhile_eq_drop {α} (p : α → Bool) (l : List α) : l.dropWhile p =
     by_cases h : p a = true
     · simp [h, ih]
     · simp [h]
-
-theorem spaced_comment (rest : Bytes) : spacedGo .comment rest = true →
-    rest.dropWhile notNl = [] ∨
-    ∃ c r, rest.dropWhile notNl = c :: r ∧ notNl c = false ∧ spacedGo (.plain true) r = true := by
-  induction rest with
-  | nil => intro _; exact Or.inl rfl
-  | cons c r ih =>
-    intro h
-    unfold spacedGo at h
-    cases hn : notNl c
-    case true =>
-      simp only [hn, if_true] at h
-      simp only [List.dropWhile_cons, hn, if_true]
-      exact ih h
-    case false =>
-      simp only [hn, Bool.false_eq_true, if_false] at h
-      exact Or.inr ⟨c, r, by simp [hn], hn, h⟩
-
 
 /-! ### model side: indices into the C string -/
 
@@ -190,9 +165,16 @@ theorem sl_body (full : Bytes) (len i n : Nat) (h : i + n ≤ len) :
   rw [this, List.drop_take, List.take_take]
   congr 1; omega
 
+theorem sl_append (full : Bytes) (a b c : Nat) (hab : a ≤ b) (hbc : b ≤ c) :
+    sl full a c = sl full a b ++ sl full b c := by
+  unfold sl
+  have h1 : c - a = (b - a) + (c - b) := by omega
+  rw [h1, List.take_add, List.drop_drop]
+  congr 3; omega
+
 theorem bracketScan_close (full : Bytes) (len : Nat) (rest : Bytes) :
     ∀ (j d m f : Nat) (ch : UInt8), (full.take len).drop j = rest → d > 0 → closeLen rest d = some m → f ≥ m →
-      bracketScan full len f j d ch = .ok (j + m, 93) ∧ j + m ≤ len := by
+      bracketScan full len f j d ch = .ok (j + m, 93) ∧ j + m ≤ len ∧ 1 ≤ m ∧ full.getD (j + m - 1) 0 = 93 := by
   induction rest with
   | nil => intro j d m f ch _ _ h; simp [closeLen] at h
   | cons c r ih =>
@@ -217,7 +199,7 @@ theorem bracketScan_close (full : Bytes) (len : Nat) (rest : Bytes) :
       simp only [hcond, if_true, cAt_lt full j hjf, hc, bind, Except.bind, hfold]
       have hz : nextDepth c d = 0 := by simpa using h0
       rw [hz]
-      refine ⟨?_, by omega⟩
+      refine ⟨?_, by omega, by omega, by rw [← hc93]; simpa using hc⟩
       cases f0 with
       | zero => rw [bracketScan, hc93]
       | succ f1 => rw [bracketScan]; simp [hc93]
@@ -236,7 +218,11 @@ theorem bracketScan_close (full : Bytes) (len : Nat) (rest : Bytes) :
         simp only [hcond, if_true, cAt_lt full j hjf, hc, bind, Except.bind, hfold]
         have := ih (j + 1) (nextDepth c d) m' f0 c hr hd' hcl (by omega)
         rw [this.1]
-        exact ⟨by congr 2; omega, by omega⟩
+        refine ⟨by congr 2; omega, by omega, by omega, ?_⟩
+        have h4 := this.2.2.2
+        have h3 := this.2.2.1
+        have : j + (m' + 1) - 1 = j + 1 + m' - 1 := by omega
+        rw [this]; exact h4
 
 theorem skipLine_eq (full : Bytes) (len : Nat) (hlen : len ≤ full.length) (rest : Bytes) :
     ∀ (i f : Nat), (full.take len).drop i = rest → f ≥ (rest.takeWhile notNl).length →
@@ -296,7 +282,7 @@ theorem skipLine_eq (full : Bytes) (len : Nat) (hlen : len ≤ full.length) (res
 
 /-! ### one iteration of the `for` loop -/
 
-/-- the part of the loop body behind the bracket scan -/
+/-- the part of the loop body for a character that does not open a group -/
 def post (full : Bytes) (len k start : Nat) (acc : List Bytes) (i : Nat) (ch : UInt8) : VM (List Bytes) :=
   if (i == len || isSepChar ch) = true then
     if ch.toNat == 35 then
@@ -310,18 +296,18 @@ theorem tokenize_plain (full : Bytes) (len k i start : Nat) (acc : List Bytes) (
   rw [tokenize]
   have h1 : ¬ i > len := by omega
   have h2 : (len == 0) = false := by simpa using hl
-  simp only [h1, if_false, h2, Bool.false_eq_true, hc, h91, bind, Except.bind, pure, Except.pure, post, sl]
+  simp only [h1, if_false, h2, Bool.false_eq_true, hc, h91, bind, Except.bind, post, sl]
   by_cases hs : (start == i) = true <;> simp [hs]
 
+/-- a `[`: the scan runs to the matching `]` and the loop resumes behind it, in the same word -/
 theorem tokenize_bracket (full : Bytes) (len k i start : Nat) (acc : List Bytes) (c : UInt8) (i2 : Nat) (ch : UInt8)
     (hi : i ≤ len) (hl : len ≠ 0) (hc : cAt full (if i == len then i - 1 else i) = .ok c) (h91 : (c.toNat == 91) = true)
     (hb : bracketScan full len (len + 2) (i + 1) 1 c = .ok (i2, ch)) :
-    tokenize full len (k+1) i start acc = post full len k start acc i2 ch := by
+    tokenize full len (k+1) i start acc = tokenize full len k i2 start acc := by
   rw [tokenize]
   have h1 : ¬ i > len := by omega
   have h2 : (len == 0) = false := by simpa using hl
-  simp only [h1, if_false, h2, Bool.false_eq_true, hc, h91, if_true, hb, bind, Except.bind, pure, Except.pure, post, sl]
-  by_cases hs : (start == i2) = true <;> simp [hs]
+  simp only [h1, if_false, h2, Bool.false_eq_true, hc, h91, if_true, hb, bind, Except.bind]
 
 theorem tokenize_past (full : Bytes) (len k i start : Nat) (acc : List Bytes) (hi : i > len) :
     tokenize full len k i start acc = .ok acc.reverse := by
@@ -369,27 +355,28 @@ theorem notNl_false_blank {c : UInt8} (h : notNl c = false) : isBlank c = true :
   unfold notNl at h; unfold isBlank; simp at h ⊢
   by_cases h10 : c.toNat = 10
   · simp [h10]
-  · simp [h10, h h10]
+  · simp [h h10]
 
-/-- THE LOOP: from any loop head at depth 0, with `cur` = the characters `start..i` collected so far,
-    the implementation's loop and the specification's recursion produce the same words -/
+/-- THE LOOP: from any loop head at bracket depth 0, with `cur` = the characters `start..i` of the word in
+    progress: whenever the specification's recursion yields words, the implementation's loop yields the same -/
 theorem tokenize_loop (full : Bytes) (len : Nat) (hlen : len ≤ full.length) (hpos : 0 < len) :
-    ∀ (n i start k k' : Nat) (acc : List Bytes), len - i ≤ n → start ≤ i → i ≤ len → k + i ≥ len + 2 → k' > len - i →
-      spacedGo (.plain (start == i)) ((full.take len).drop i) = true →
+    ∀ (n i start k k' : Nat) (acc ws : List Bytes), len - i ≤ n → start ≤ i → i ≤ len → k + i ≥ len + 2 → k' > len - i →
       (i = len → (full.getD (len - 1) 0).toNat ≠ 91) →
-      ∃ ws, Spec.splitWords k' ((full.take len).drop i) (sl full start i) 0 acc = some ws ∧
-            tokenize full len k i start acc = .ok ws := by
+      Spec.splitWords k' ((full.take len).drop i) (sl full start i) 0 acc = some ws →
+      tokenize full len k i start acc = .ok ws := by
   intro n
   induction n with
   | zero =>
-    intro i start k k' acc hn hsi hil hk hk' hsp hprev
+    intro i start k k' acc ws hn hsi hil hk hk' hprev hspec
     have hi : i = len := by omega
     subst hi
     have hnil : (full.take i).drop i = [] := List.drop_eq_nil_of_le (by simp [List.length_take]; omega)
-    rw [hnil]
+    rw [hnil] at hspec
     obtain ⟨k0, rfl⟩ : ∃ k0, k = k0 + 1 := ⟨k - 1, by omega⟩
     obtain ⟨k'0, rfl⟩ : ∃ k'0, k' = k'0 + 1 := ⟨k' - 1, by omega⟩
-    rw [Spec.splitWords]
+    rw [Spec.splitWords] at hspec
+    simp only [bne_self_eq_false, Bool.false_eq_true, if_false, Option.some.injEq] at hspec
+    subst hspec
     have hcat : cAt full (if (i == i) = true then i - 1 else i) = .ok (full.getD (i - 1) 0) := by
       simp only [beq_self_eq_true, if_true]; exact cAt_lt full _ (by omega)
     have h91 : ((full.getD (i - 1) 0).toNat == 91) = false := by simpa using hprev rfl
@@ -397,122 +384,85 @@ theorem tokenize_loop (full : Bytes) (len : Nat) (hlen : len ≤ full.length) (h
     unfold post
     simp only [beq_self_eq_true, Bool.true_or, if_true]
     rw [sl_isEmpty full start i hsi hlen]
-    refine ⟨(if (start == i) = true then acc else sl full start i :: acc).reverse, by simp, ?_⟩
     split
     · apply tokenize_past; have := skipLine_ge full i (i + 1) i; omega
     · apply tokenize_past; omega
   | succ n0 ih =>
-    intro i start k k' acc hn hsi hil hk hk' hsp hprev
+    intro i start k k' acc ws hn hsi hil hk hk' hprev hspec
     cases hrest : (full.take len).drop i with
     | nil =>
       have hi := drop_take_nil hlen hil hrest
-      rw [← hrest]
-      exact ih i start k k' acc (by omega) hsi hil hk hk' hsp hprev
+      exact ih i start k k' acc ws (by omega) hsi hil hk hk' hprev hspec
     | cons c r =>
       obtain ⟨hilt, hifl, hc, hr⟩ := drop_take_cons hrest
-      rw [hrest] at hsp
+      rw [hrest] at hspec
       obtain ⟨k0, rfl⟩ : ∃ k0, k = k0 + 1 := ⟨k - 1, by omega⟩
       obtain ⟨k'0, rfl⟩ : ∃ k'0, k' = k'0 + 1 := ⟨k' - 1, by omega⟩
       have hine : (i == len) = false := by simp; omega
       have hcat : cAt full (if (i == len) = true then i - 1 else i) = .ok c := by
         simp only [hine, Bool.false_eq_true, if_false]; rw [cAt_lt full i hifl, hc]
       have hempty := sl_isEmpty full start i hsi (by omega)
-      unfold spacedGo at hsp
+      rw [Spec.splitWords] at hspec
+      simp only [Nat.lt_irrefl, gt_iff_lt, if_false] at hspec
       cases h91 : (c.toNat == 91)
       case true =>
-        -- a nested group starts here
-        simp only [h91, if_true, Bool.and_eq_true] at hsp
-        obtain ⟨hce, hnest⟩ := hsp
-        have hstart : start = i := by simpa using hce
-        subst hstart
-        obtain ⟨m, hm, hafter⟩ := spaced_nest r 1 hnest
-        obtain ⟨hscan, hle⟩ := bracketScan_close full len r (start + 1) 1 m (len + 2) c hr (by decide) hm
-          (by
-            have : m ≤ r.length := closeLen_le r 1 m hm
-            have hrl := congrArg List.length hr
-            simp [List.length_take] at hrl
-            omega)
-        rw [tokenize_bracket full len k0 start start acc c (start + 1 + m) 93 hil (by omega) hcat h91 hscan]
-        rw [Spec.splitWords]
-        simp only [Nat.lt_irrefl, gt_iff_lt, if_false, h91, if_true, hempty, beq_self_eq_true]
-        rw [splitWords_nest r k'0 1 m [c] acc (by decide) hm (by omega)]
-        have hsep : (start + 1 + m == len || isSepChar 93) = true := by simp [isSepChar]
-        have hne : (start == start + 1 + m) = false := by simp; omega
-        unfold post
-        have h35 : ((93 : UInt8).toNat == 35) = false := by decide
-        simp only [hsep, if_true, h35, Bool.false_eq_true, if_false, hne]
-        have hword : sl full start (start + 1 + m) = [c] ++ r.take m := by
-          have := sl_body full len start (1 + m) (by omega)
-          rw [show start + (1 + m) = start + 1 + m by omega] at this
-          rw [this, hrest]; simp [List.take_succ_cons, Nat.add_comm]
-        rw [hword]
-        have hdrop : r.drop m = (full.take len).drop (start + 1 + m) := by
-          rw [← hr, List.drop_drop]
-        rw [hdrop] at hafter ⊢
-        cases hrest2 : (full.take len).drop (start + 1 + m) with
-        | nil =>
-          have hi2 := drop_take_nil hlen hle hrest2
-          obtain ⟨k'1, hk'1⟩ : ∃ k'1, k'0 - m = k'1 + 1 := ⟨k'0 - m - 1, by omega⟩
-          rw [hk'1, Spec.splitWords]
-          refine ⟨(([c] ++ r.take m) :: acc).reverse, by simp, ?_⟩
-          apply tokenize_past; omega
-        | cons c2 r2 =>
-          obtain ⟨h2lt, h2fl, hc2, hr2⟩ := drop_take_cons hrest2
-          rw [hrest2] at hafter
-          unfold spacedGo at hafter
-          simp only [Bool.and_eq_true] at hafter
-          obtain ⟨hblank, hsp2⟩ := hafter
-          obtain ⟨b91, b93, b35, bsep, bbl⟩ := isBlank_facts hblank
-          obtain ⟨k'1, hk'1⟩ : ∃ k'1, k'0 - m = k'1 + 1 := ⟨k'0 - m - 1, by omega⟩
-          rw [hk'1, Spec.splitWords]
-          simp only [Nat.lt_irrefl, gt_iff_lt, if_false, b91, Bool.false_eq_true, bbl, if_true, List.isEmpty_nil]
-          have := ih (start + 1 + m + 1) (start + 1 + m + 1) k0 k'1 (([c] ++ r.take m) :: acc)
-            (by omega) (Nat.le_refl _) (by omega) (by omega) (by omega)
-            (by rw [hr2]; simpa using hsp2)
+        -- a group starts here (at the start of a word or inside one) and belongs to the word
+        simp only [h91, if_true] at hspec
+        cases hcl : closeLen r 1 with
+        | none => rw [splitWords_unclosed r k'0 1 _ acc (by decide) hcl] at hspec; cases hspec
+        | some m =>
+          have hmle : m ≤ r.length := closeLen_le r 1 m hcl
+          have hrl : r.length = len - (i + 1) := by
+            have h2 := congrArg List.length hr
+            simp [List.length_take] at h2; omega
+          obtain ⟨hscan, hle, hm1, hlast⟩ := bracketScan_close full len r (i + 1) 1 m (len + 2) c hr (by decide) hcl (by omega)
+          rw [tokenize_bracket full len k0 i start acc c (i + 1 + m) 93 hil (by omega) hcat h91 hscan]
+          rw [splitWords_nest r k'0 1 m _ acc (by decide) hcl (by omega)] at hspec
+          have hword : sl full start i ++ [c] ++ r.take m = sl full start (i + 1 + m) := by
+            rw [sl_append full start i (i + 1 + m) hsi (by omega)]
+            have := sl_body full len i (1 + m) (by omega)
+            rw [show i + (1 + m) = i + 1 + m by omega] at this
+            rw [this, hrest]; simp [List.take_succ_cons, Nat.add_comm]
+          have hdrop : r.drop m = (full.take len).drop (i + 1 + m) := by
+            rw [← hr, List.drop_drop]
+          rw [hword, hdrop] at hspec
+          exact ih (i + 1 + m) start k0 (k'0 - m) acc ws (by omega) (by omega) hle (by omega) (by omega)
             (by intro he
-                have : len - 1 = start + 1 + m := by omega
-                rw [this, hc2]; simpa using b91)
-          rw [sl_self, hr2] at this
-          exact this
+                have : len - 1 = i + 1 + m - 1 := by omega
+                rw [this, hlast]; decide)
+            hspec
       case false =>
-        simp only [h91, Bool.false_eq_true, if_false] at hsp
+        simp only [h91, Bool.false_eq_true, if_false] at hspec
         cases h93 : (c.toNat == 93)
-        case true => simp [h93] at hsp
+        case true => simp [h93] at hspec
         case false =>
-          simp only [h93, Bool.false_eq_true, if_false] at hsp
+          simp only [h93, Bool.false_eq_true, if_false, hempty] at hspec
           rw [tokenize_plain full len k0 i start acc c hil (by omega) hcat h91]
-          rw [Spec.splitWords]
-          simp only [Nat.lt_irrefl, gt_iff_lt, if_false, h91, Bool.false_eq_true, hempty]
           cases hbl : isBlank c
           case true =>
             -- a blank ends the word in progress
             obtain ⟨_, _, b35, bsep, bbl⟩ := isBlank_facts hbl
-            simp only [hbl, if_true] at hsp
-            simp only [bbl, if_true]
+            simp only [bbl, if_true] at hspec
             unfold post
             simp only [bsep, Bool.or_true, if_true, b35, Bool.false_eq_true, if_false]
-            have := ih (i + 1) (i + 1) k0 k'0 (if (start == i) = true then acc else sl full start i :: acc)
-              (by omega) (Nat.le_refl _) (by omega) (by omega) (by omega)
-              (by rw [hr]; simpa using hsp)
-              (by intro he
-                  have : len - 1 = i := by omega
-                  rw [this, hc]; simpa using h91)
-            rw [sl_self, hr] at this
             have hst : (if (start == i) = true then start + 1 else i + 1) = i + 1 := by
               by_cases hs : (start == i) = true
               · have : start = i := by simpa using hs
                 simp [this]
               · simp [hs]
             rw [hst]
-            exact this
+            refine ih (i + 1) (i + 1) k0 k'0 _ ws (by omega) (Nat.le_refl _) (by omega) (by omega) (by omega)
+              (by intro he
+                  have : len - 1 = i := by omega
+                  rw [this, hc]; simpa using h91) ?_
+            rw [sl_self, hr]; exact hspec
           case false =>
             have hbl' : (c.toNat == 32 || c.toNat == 9 || c.toNat == 10 || c.toNat == 13) = false := hbl
-            simp only [hbl, Bool.false_eq_true, if_false] at hsp
-            simp only [hbl', Bool.false_eq_true, if_false]
+            simp only [hbl', Bool.false_eq_true, if_false] at hspec
             cases h35 : (c.toNat == 35)
             case true =>
               -- a comment: skip to the end of the line
-              simp only [h35, if_true] at hsp ⊢
+              simp only [h35, if_true] at hspec
               have hsepc : isSepChar c = true := by unfold isSepChar; simp [h35]
               unfold post
               simp only [hsepc, Bool.or_true, if_true, h35]
@@ -528,72 +478,65 @@ theorem tokenize_loop (full : Bytes) (len : Nat) (hlen : len ≤ full.length) (h
               simp only [List.takeWhile_cons, hnl, if_true, List.length_cons] at hskip
               rw [hskip]
               have hpred : (fun x : UInt8 => x.toNat != 10 && x.toNat != 13) = notNl := rfl
-              rw [hpred, dropWhile_eq_drop]
+              rw [hpred, dropWhile_eq_drop] at hspec
               have htl : (r.takeWhile notNl).length ≤ r.length := takeWhile_length_le _ _
               have hrl : r.length = len - (i + 1) := by
                 have h2 := congrArg List.length hr
                 simp [List.length_take] at h2; omega
               have hdrop : r.drop (r.takeWhile notNl).length = (full.take len).drop (i + (r.takeWhile notNl).length + 1) := by
                 rw [← hr, List.drop_drop]; congr 1; omega
-              have hcm := spaced_comment r hsp
-              rw [dropWhile_eq_drop, hdrop] at hcm
-              rw [hdrop]
-              generalize hj : i + (r.takeWhile notNl).length + 1 = j at hcm hdrop ⊢
+              have hhead : ∀ c2 r3, r.drop (r.takeWhile notNl).length = c2 :: r3 → notNl c2 = false := by
+                intro c2 r3 h
+                rw [← dropWhile_eq_drop] at h
+                exact dropWhile_head notNl r c2 r3 h
+              rw [hdrop] at hspec hhead
+              generalize hj : i + (r.takeWhile notNl).length + 1 = j at hspec hhead
               have hjle : j ≤ len := by omega
-              rcases hcm with hnil | ⟨c2, r3, hcons, hnl2, hsp3⟩
-              · have hjl := drop_take_nil hlen hjle hnil
+              cases hrest2 : (full.take len).drop j with
+              | nil =>
+                have hjl := drop_take_nil hlen hjle hrest2
                 obtain ⟨k'1, rfl⟩ : ∃ k'1, k'0 = k'1 + 1 := ⟨k'0 - 1, by omega⟩
-                rw [hnil, Spec.splitWords]
-                refine ⟨(if (start == i) = true then acc else sl full start i :: acc).reverse, by simp, ?_⟩
+                rw [hrest2, Spec.splitWords] at hspec
+                simp only [bne_self_eq_false, Bool.false_eq_true, if_false, List.isEmpty_nil, if_true,
+                  Option.some.injEq] at hspec
+                subst hspec
                 apply tokenize_past; omega
-              · obtain ⟨h2lt, h2fl, hc2, hr2⟩ := drop_take_cons hcons
-                have hblank := notNl_false_blank hnl2
+              | cons c2 r3 =>
+                obtain ⟨h2lt, h2fl, hc2, hr2⟩ := drop_take_cons hrest2
+                have hblank := notNl_false_blank (hhead c2 r3 hrest2)
                 obtain ⟨b91, b93, b35, bsep, bbl⟩ := isBlank_facts hblank
                 obtain ⟨k'1, rfl⟩ : ∃ k'1, k'0 = k'1 + 1 := ⟨k'0 - 1, by omega⟩
-                rw [hcons, Spec.splitWords]
-                simp only [Nat.lt_irrefl, gt_iff_lt, if_false, b91, Bool.false_eq_true, bbl, if_true, List.isEmpty_nil]
-                have := ih (j + 1) (j + 1) k0 k'1 (if (start == i) = true then acc else sl full start i :: acc)
-                  (by omega) (Nat.le_refl _) (by omega) (by omega) (by omega)
-                  (by rw [hr2]; simpa using hsp3)
+                rw [hrest2, Spec.splitWords] at hspec
+                simp only [Nat.lt_irrefl, gt_iff_lt, if_false, b91, b93, Bool.false_eq_true, bbl, if_true, List.isEmpty_nil] at hspec
+                refine ih (j + 1) (j + 1) k0 k'1 _ ws (by omega) (Nat.le_refl _) (by omega) (by omega) (by omega)
                   (by intro he
                       have : len - 1 = j := by omega
-                      rw [this, hc2]; simpa using b91)
-                rw [sl_self, hr2] at this
-                exact this
+                      rw [this, hc2]; simpa using b91) ?_
+                rw [sl_self, hr2]; exact hspec
             case false =>
               -- an ordinary character joins the word in progress
-              simp only [h35, Bool.false_eq_true, if_false] at hsp ⊢
+              simp only [h35, Bool.false_eq_true, if_false] at hspec
               have hsepc : isSepChar c = false := by
                 unfold isSepChar; unfold isBlank at hbl
                 simp at h93 h35 hbl ⊢
                 omega
               unfold post
               simp only [hine, hsepc, Bool.or_false, Bool.false_eq_true, if_false]
-              have := ih (i + 1) start k0 k'0 acc (by omega) (by omega) (by omega) (by omega) (by omega)
-                (by rw [hr]
-                    have : (start == i + 1) = false := by simp; omega
-                    rw [this]; exact hsp)
+              refine ih (i + 1) start k0 k'0 acc ws (by omega) (by omega) (by omega) (by omega) (by omega)
                 (by intro he
                     have : len - 1 = i := by omega
-                    rw [this, hc]; simpa using h91)
-              rw [sl_snoc full start i hsi hifl, hc, hr] at this
-              exact this
+                    rw [this, hc]; simpa using h91) ?_
+              rw [sl_snoc full start i hsi hifl, hc, hr]; exact hspec
 
-
-/-- JOB B.1 — on a non-empty bracket body that satisfies the lexical side condition, the tokenizer of
-    `Value::parse_args(const char*, size_t)` yields exactly the words of `Spec.splitWords` (same separators,
-    `#` comments to the end of the line, nested groups kept as one word). `tail` is whatever follows the body
-    in memory (the closing `]` and the NUL); any specification fuel above the length works. -/
-theorem tokenize_eq_splitWords_aux (body tail : Bytes) (hne : body ≠ []) (hs : Spaced body) (k' : Nat) (hk' : k' > body.length) :
-    ∃ ws, Spec.splitWords k' body [] 0 [] = some ws ∧
-      tokenize (body ++ tail) body.length (body.length + 2) 0 0 [] = .ok ws := by
+/-- the tokenizer against the specification on a non-empty bracket body -/
+theorem tokenize_eq_splitWords_aux (body tail : Bytes) (hne : body ≠ []) (k' : Nat) (hk' : k' > body.length)
+    (ws : List Bytes) (hs : Spec.splitWords k' body [] 0 [] = some ws) :
+    tokenize (body ++ tail) body.length (body.length + 2) 0 0 [] = .ok ws := by
   have hpos : 0 < body.length := List.length_pos_iff.mpr hne
   have htake : (body ++ tail).take body.length = body := by simp
-  have := tokenize_loop (body ++ tail) body.length (by simp) hpos body.length 0 0 (body.length + 2) k' []
-    (by omega) (Nat.le_refl _) (by omega) (by omega) (by omega)
-    (by rw [htake]; unfold Spaced at hs; simpa using hs) (by intro h; omega)
-  rw [htake, sl_self] at this
-  simpa using this
+  exact tokenize_loop (body ++ tail) body.length (by simp) hpos body.length 0 0 (body.length + 2) k' [] ws
+    (by omega) (Nat.le_refl _) (by omega) (by omega) (by omega) (by intro h; omega)
+    (by rw [htake, sl_self]; simpa using hs)
 
 /-! ### the words that come out -/
 
@@ -614,17 +557,26 @@ theorem count91_dropWhile (p : UInt8 → Bool) (l : Bytes) : count91 (l.dropWhil
   exact List.Sublist.count_le _ (List.dropWhile_sublist p)
 
 theorem splitWords_words : ∀ (k : Nat) (t cur : Bytes) (d : Nat) (acc ws : List Bytes),
-    Spec.splitWords k t cur d acc = some ws →
-    (d = 0 → cur.head? ≠ some 91) → (d > 0 → cur ≠ [] ∧ Model.bracketBalance cur = d) →
+    Spec.splitWords k t cur d acc = some ws → Model.bracketBalance cur = d →
     ∀ w ∈ ws, w ∈ acc ∨ (GoodWord w ∧ count91 w ≤ count91 cur + count91 t) := by
   intro k
   induction k with
   | zero => intro t cur d acc ws h; simp [Spec.splitWords] at h
   | succ k ih =>
-    intro t cur d acc ws h h0 hd w hw
+    intro t cur d acc ws h hbal w hw
     have hcurgood : d = 0 → cur.isEmpty = false → GoodWord cur := by
       intro hd0 hne
-      refine ⟨by intro h; simp [h] at hne, fun hh => h0 hd0 hh.1⟩
+      refine ⟨by intro h; simp [h] at hne, fun hh => ?_⟩
+      rw [hbal, hd0] at hh; exact absurd hh.2 (by decide)
+    have hpush : d = 0 → ∀ t' : Bytes, ∀ w, w ∈ (if cur.isEmpty = true then acc else cur :: acc) →
+        w ∈ acc ∨ (GoodWord w ∧ count91 w ≤ count91 cur + count91 t') := by
+      intro hd0 _ w hw
+      cases hce : cur.isEmpty
+      · simp only [hce, Bool.false_eq_true, if_false, List.mem_cons] at hw
+        rcases hw with rfl | hw
+        · exact Or.inr ⟨hcurgood hd0 hce, by omega⟩
+        · exact Or.inl hw
+      · simp only [hce, if_true] at hw; exact Or.inl hw
     cases t with
     | nil =>
       rw [Spec.splitWords] at h
@@ -632,12 +584,7 @@ theorem splitWords_words : ∀ (k : Nat) (t cur : Bytes) (d : Nat) (acc ws : Lis
       · subst hdz
         simp only [bne_self_eq_false, Bool.false_eq_true, if_false, Option.some.injEq] at h
         subst h
-        cases hce : cur.isEmpty
-        · simp only [hce, Bool.false_eq_true, if_false, List.mem_reverse, List.mem_cons] at hw
-          rcases hw with rfl | hw
-          · exact Or.inr ⟨hcurgood rfl hce, by omega⟩
-          · exact Or.inl hw
-        · simp only [hce, if_true, List.mem_reverse] at hw; exact Or.inl hw
+        exact hpush rfl [] w (by simpa using hw)
       · have : (d != 0) = true := by simpa using hdz
         simp [this] at h
     | cons c r =>
@@ -658,87 +605,54 @@ theorem splitWords_words : ∀ (k : Nat) (t cur : Bytes) (d : Nat) (acc ws : Lis
         · subst hc; rfl
         · have : ¬ c.toNat = 91 := fun hh => hc (u8_ext hh)
           simp [hc, this]
+      -- the common step: the character joins the word in progress
+      have hjoin : ∀ d', Spec.splitWords k r (cur ++ [c]) d' acc = some ws → Model.bracketBalance (cur ++ [c]) = d' →
+          w ∈ acc ∨ (GoodWord w ∧ count91 w ≤ count91 cur + count91 (c :: r)) := by
+        intro d' h' hb'
+        rcases ih r (cur ++ [c]) d' acc ws h' hb' w hw with h1 | ⟨h1, h2⟩
+        · exact Or.inl h1
+        · exact Or.inr ⟨h1, by rw [hcnts] at h2; rw [hcnt]; omega⟩
       by_cases hdp : d > 0
-      · obtain ⟨hcne, hbal⟩ := hd hdp
-        simp only [hdp, if_true] at h
+      · simp only [hdp, if_true] at h
         have hfold : (if (c.toNat == 91) = true then d + 1 else if (c.toNat == 93) = true then d - 1 else d) = nextDepth c d := rfl
         simp only [hfold] at h
-        have hbal' : Model.bracketBalance (cur ++ [c]) = (nextDepth c d : Nat) := by
-          rw [bracketBalance_snoc, hbal]; unfold balStep nextDepth
-          by_cases h91 : (c.toNat == 91) = true
-          · simp [h91]
-          · by_cases h93 : (c.toNat == 93) = true
-            · simp [h91, h93]; omega
-            · simp [h91, h93]
-        cases hz : (nextDepth c d == 0)
-        · simp only [hz, Bool.false_eq_true, if_false] at h
-          have := ih r (cur ++ [c]) (nextDepth c d) acc ws h
-            (by intro hh; simp [hh] at hz)
-            (by intro _; exact ⟨by simp, hbal'⟩) w hw
-          rcases this with h1 | ⟨h1, h2⟩
-          · exact Or.inl h1
-          · exact Or.inr ⟨h1, by rw [hcnts] at h2; rw [hcnt]; omega⟩
-        · simp only [hz, if_true] at h
-          have hz' : nextDepth c d = 0 := by simpa using hz
-          have := ih r [] 0 ((cur ++ [c]) :: acc) ws h (by intro _; simp) (by intro hh; omega) w hw
-          rcases this with h1 | ⟨h1, h2⟩
-          · rcases List.mem_cons.mp h1 with rfl | h1
-            · refine Or.inr ⟨⟨by simp, ?_⟩, by rw [hcnts, hcnt]; omega⟩
-              intro hh; rw [hbal', hz'] at hh; exact absurd hh.2 (by decide)
-            · exact Or.inl h1
-          · exact Or.inr ⟨h1, by rw [hcnt]; simp [count91] at h2 ⊢; omega⟩
+        refine hjoin _ h ?_
+        rw [bracketBalance_snoc, hbal]; unfold balStep nextDepth
+        by_cases h91 : (c.toNat == 91) = true
+        · simp [h91]
+        · by_cases h93 : (c.toNat == 93) = true
+          · simp [h91, h93]; omega
+          · simp [h91, h93]
       · have hd0 : d = 0 := by omega
         subst hd0
         simp only [Nat.lt_irrefl, gt_iff_lt, if_false] at h
-        -- what is pushed when the word in progress ends
-        have hpush : ∀ ws' : List Bytes, ∀ w, w ∈ (if cur.isEmpty = true then acc else cur :: acc) →
-            w ∈ acc ∨ (GoodWord w ∧ count91 w ≤ count91 cur + count91 (c :: r)) := by
-          intro _ w hw
-          cases hce : cur.isEmpty
-          · simp only [hce, Bool.false_eq_true, if_false, List.mem_cons] at hw
-            rcases hw with rfl | hw
-            · exact Or.inr ⟨hcurgood rfl hce, by omega⟩
-            · exact Or.inl hw
-          · simp only [hce, if_true] at hw; exact Or.inl hw
         cases h91 : (c.toNat == 91)
         case true =>
           simp only [h91, if_true] at h
-          have hc91 : c = 91 := u8_ext (by simpa using h91)
-          have := ih r [c] 1 _ ws h (by intro hh; cases hh)
-            (by intro _; subst hc91; exact ⟨by simp, by decide⟩) w hw
-          rcases this with h1 | ⟨h1, h2⟩
-          · exact hpush ws w h1
-          · refine Or.inr ⟨h1, ?_⟩
-            rw [hcnt]; simp only [h91, if_true]
-            have : count91 [c] = 1 := by subst hc91; rfl
-            omega
+          refine hjoin 1 h ?_
+          rw [bracketBalance_snoc, hbal]; unfold balStep; simp [h91]
         case false =>
           simp only [h91, Bool.false_eq_true, if_false] at h hcnt hcnts
-          by_cases hbl : (c.toNat == 32 || c.toNat == 9 || c.toNat == 10 || c.toNat == 13) = true
-          · simp only [hbl, if_true] at h
-            have := ih r [] 0 _ ws h (by intro _; simp) (by intro hh; omega) w hw
-            rcases this with h1 | ⟨h1, h2⟩
-            · exact hpush ws w h1
-            · exact Or.inr ⟨h1, by rw [hcnt]; simp [count91] at h2 ⊢; omega⟩
-          · simp only [hbl, if_false] at h
-            by_cases h35 : (c.toNat == 35) = true
-            · simp only [h35, if_true] at h
-              have := ih _ [] 0 _ ws h (by intro _; simp) (by intro hh; omega) w hw
-              rcases this with h1 | ⟨h1, h2⟩
-              · exact hpush ws w h1
-              · refine Or.inr ⟨h1, ?_⟩
-                have := count91_dropWhile (fun x => x.toNat != 10 && x.toNat != 13) r
-                rw [hcnt]; simp [count91] at h2 this ⊢; omega
-            · simp only [h35, if_false] at h
-              have := ih r (cur ++ [c]) 0 acc ws h
-                (by intro _
-                    cases cur with
-                    | nil => simp; intro hh; rw [hh] at h91; simp at h91
-                    | cons x xs => have := h0 rfl; simpa using this)
-                (by intro hh; omega) w hw
-              rcases this with h1 | ⟨h1, h2⟩
-              · exact Or.inl h1
-              · exact Or.inr ⟨h1, by rw [hcnts] at h2; rw [hcnt]; omega⟩
+          cases h93 : (c.toNat == 93)
+          case true => simp [h93] at h
+          case false =>
+            simp only [h93, Bool.false_eq_true, if_false] at h
+            by_cases hbl : (c.toNat == 32 || c.toNat == 9 || c.toNat == 10 || c.toNat == 13) = true
+            · simp only [hbl, if_true] at h
+              rcases ih r [] 0 _ ws h rfl w hw with h1 | ⟨h1, h2⟩
+              · exact hpush rfl _ w h1
+              · exact Or.inr ⟨h1, by rw [hcnt]; simp [count91] at h2 ⊢; omega⟩
+            · simp only [hbl, if_false] at h
+              by_cases h35 : (c.toNat == 35) = true
+              · simp only [h35, if_true] at h
+                rcases ih _ [] 0 _ ws h rfl w hw with h1 | ⟨h1, h2⟩
+                · exact hpush rfl _ w h1
+                · refine Or.inr ⟨h1, ?_⟩
+                  have := count91_dropWhile (fun x => x.toNat != 10 && x.toNat != 13) r
+                  rw [hcnt]; simp [count91] at h2 this ⊢; omega
+              · simp only [h35, if_false] at h
+                refine hjoin 0 h ?_
+                rw [bracketBalance_snoc, hbal]; unfold balStep; simp [h91, h93]
 
 /-! ### `parse_args(vector)` on words -/
 
